@@ -27,8 +27,31 @@ CHECKS = {
         "Nothing is claimed between lattice points; tolerance 1e-10*|m_i| is the rounding level of a "
         "direct solve (measured worst 2e-13).",
         "4/C01"),
-    "C02": (False, EX, "", "", "", "4/C02"),
-    "C03": (False, EX, "", "", "", "4/C03"),
+    "C02": (
+        True, EX,
+        "complete enumeration of refinement ladders x tables x pressure pairs, each rung simulated by "
+        "the library and compared with the closed-form Fourier series or an independent 400-cell "
+        "method-of-lines reference",
+        "For every configuration of the declared lattice (ideal, constant-diffusivity and five "
+        "pressure-dependent tables x 4 pressure pairs) every rung (20,400),(40,1600),(80,6400)"
+        "[,(160,25600)] is simulated; field error (up to an O(h) node convention) and both recovery "
+        "modes must shrink by <= 0.75 per rung and end below 6/nx. A scheme converging to another "
+        "boundary-value problem has an error floor, so its ratio tends to 1 and it is rejected.",
+        "Convergence is asymptotic; the check decides its stated consequence on a finite ladder. "
+        "Reference accuracy (1e-5) is far below the 2e-4 floor used in the ratio test.",
+        "4/C02"),
+    "C03": (
+        True, EX,
+        "complete enumeration of tables x pressure pairs x schedules x refinement ladder; relation "
+        "between the two recovery modes, monotonicity on every level and the density ceiling",
+        "Every configuration (3 exactly consistent synthetic families and 2 shipped tables x 5 "
+        "pressure pairs x {scalar, step-down, down-up} schedules, ideal reservoir x 5 pairs) is "
+        "simulated on every rung; rf[0]=rfd[0]=0 exactly, gap <= 2.5/nx + 1.5 delta with delta the "
+        "table's own measured inconsistency, gap ratio <= 0.75 per rung, non-decreasing while the "
+        "schedule does not rise, in-place recovery <= 1 - rho(min p_f)/rho(p_i), ideal plateau 1-p_f/p_i.",
+        "Shipped tables are admitted only where their measured inconsistency is <= 5%; nothing is "
+        "claimed between lattice points.",
+        "4/C03"),
     "C04": (
         True, MC,
         "step-transition system: backward-Euler residual recomputed from public state on every "
